@@ -144,6 +144,33 @@ def run(ctx: Context, rep) -> None:
                     form = f"iter(lambda: f.read(n), b'') / update({short(arg)})"
             ok_outer = ok_outer and len(outer.body) == 1 and not outer.orelse
         elif isinstance(outer, ast.While) and isinstance(
+                outer.test, ast.Compare) and isinstance(
+                    outer.test.left, ast.NamedExpr) and len(
+                        outer.test.ops) == 1 and isinstance(
+                            outer.test.left.value, ast.Call) and isinstance(
+                                outer.test.left.value.func, ast.Attribute):
+            # while (n := f.readinto(buf)) != 0: / > 0:
+            w = outer.test.left
+            meth = w.value.func.attr
+            n_var = dotted(w.target)
+            cmp_ok = (isinstance(outer.test.ops[0], (ast.NotEq, ast.Gt)) and
+                      isinstance(outer.test.comparators[0], ast.Constant) and
+                      outer.test.comparators[0].value == 0)
+            if meth == "readinto" and w.value.args:
+                buf = dotted(w.value.args[0])
+                ok_outer = cmp_ok and isinstance(arg, ast.Subscript) and \
+                    dotted(arg.value) == buf and isinstance(
+                        arg.slice, ast.Slice) and arg.slice.lower is None and \
+                    arg.slice.step is None and dotted(arg.slice.upper) == n_var
+                form = f"while (n := f.readinto({buf})) != 0 / update({short(arg)})"
+            elif meth == "read":
+                ok_outer = (isinstance(outer.test.ops[0], ast.NotEq) and
+                            isinstance(outer.test.comparators[0], ast.Constant)
+                            and outer.test.comparators[0].value == b"") and \
+                    dotted(arg) == n_var
+                form = f"while (chunk := f.read(n)) != b'' / update({short(arg)})"
+            ok_outer = ok_outer and len(outer.body) == 1 and not outer.orelse
+        elif isinstance(outer, ast.While) and isinstance(
                 outer.test, ast.NamedExpr) and isinstance(
                     outer.test.value, ast.Call) and isinstance(
                         outer.test.value.func, ast.Attribute) and \
